@@ -26,7 +26,7 @@ def api_cases(r, n):
     cases = []
     for _ in range(n):
         ops = []
-        base = r.randrange(5, 9) * 10**9
+        base = r.randrange(5, 9) * 10**9 if r.random() < 0.75 else -r.randrange(5, 9) * 10**9     # a quarter of the cases: time stamps before 1970
         for _ in range(r.randrange(2, 12)):
             p = r.randrange(1, 4)
             mt = base + r.choice([0, 0, 1, -1, 10**9, -10**9, 5 * 10**8, 2 * 10**9])
@@ -70,8 +70,11 @@ def edit_source(r, src, state, force=None, force_on=None, only=None):
                 continue
             state[rel] = (r.randrange(1 << 30), r.choice([0, 7, 5000, 70000]), fresh_mt(rel, None, r.randrange(3_000_000, 5_000_000) * NS, 0))
             log.append(("create", rel))
-        elif kind in ("modsize", "samesize_later", "samesize_earlier", "samesize_subsecond"):
+        elif kind in ("modsize", "samesize_later", "samesize_earlier", "samesize_subsecond", "samesize_ancient"):
             pool = [f for f in files if f in force_on] if (force_on and kind == force and kind is kinds[-1]) else files
+            if kind == "samesize_ancient":
+                # a file whose time stamp lies before 1970 (restored from an old archive) and moves to another one there
+                pool = [f for f in files if state[f][2] < -ew.T0NS] or files
             rel = r.choice(pool or files)
             if rel not in state:
                 continue
@@ -82,6 +85,8 @@ def edit_source(r, src, state, force=None, force_on=None, only=None):
             elif kind == "samesize_subsecond":
                 # same size, same whole second, another nanosecond part (and other bytes): still another (mtime, size)
                 state[rel] = (r.randrange(1 << 30), size, mt - mt % NS + (mt % NS + r.choice([1, 1000, 250_000_000, 499_999_999])) % NS)
+            elif kind == "samesize_ancient":
+                state[rel] = (r.randrange(1 << 30), size, -ew.T0NS - r.randrange(1, 4000) * 86400 * NS - r.choice([0, 250_000_000]))
             elif kind == "samesize_later":
                 state[rel] = (r.randrange(1 << 30), size, fresh_mt(rel, size, mt + r.choice([2 * NS, 86400 * NS]), +NS))
             else:
@@ -170,7 +175,10 @@ AUX_SETS = [("cache", ["--use-cache=true"], []), ("db", ["--checksum", "--checks
 def still_same(src, dst, rel):
     """Caches.plan_resume after the repair: a path listed as completed is skipped only while the source file still has the recorded size and checksum"""
     a, b = os.path.join(src, rel), os.path.join(dst, rel)
-    return os.path.isfile(a) and os.path.isfile(b) and os.path.getsize(a) == os.path.getsize(b) and world.sha(a) == world.sha(b)
+    # ... and (`fix: resume skips a completed path only while the destination still holds it`) the destination file has the source's
+    # size and time stamp within the planner's second
+    return (os.path.isfile(a) and os.path.isfile(b) and not os.path.islink(b) and os.path.getsize(a) == os.path.getsize(b) and world.sha(a) == world.sha(b)
+            and abs(os.stat(a).st_mtime_ns - os.stat(b).st_mtime_ns) // 10**9 <= 1)
 
 
 def strip(snap):
@@ -208,7 +216,7 @@ def run_history(sc, seed, i, known, stats):
             # the edit goes to a file the planted state file is going to list (the first five synced paths), non-empty when there is one
             listed = sorted(synced)[:5]
             synced = [p for p in listed if state[p][1] > 0] or listed
-        history.append(edit_source(r, src, state, force=(("samesize_earlier" if k % 2 == 0 else "samesize_subsecond") if ("db" in name or name == "all") and k >= 2 else
+        history.append(edit_source(r, src, state, force=((["samesize_earlier", "samesize_subsecond", "samesize_ancient"][k % 3] if i % 2 == 0 else "samesize_ancient") if ("db" in name or name == "all") and k >= 2 else
                                                          (r.choice(["samesize_later", "samesize_later", "samesize_earlier", "modsize"]) if name == "state" and k >= 2 else None)),
                                    force_on=synced if name == "state" else None,
                                    # every other 'state' history is calm: a few files created once, then one edit per step to a listed file
@@ -244,6 +252,23 @@ def run_history(sc, seed, i, known, stats):
                                                                               # completed when the earlier run was made: now (an honest leftover), or some date before the files' time stamps
                                                                               datetime.datetime.now(datetime.timezone.utc).isoformat() if r.random() < 0.8 else "2020-01-01T00:00:00+00:00")], shards=1)
                 dmg.append(("valid-state", paths))
+                # the destination drifts after the state file was written: a listed file is removed, or rewritten by somebody else
+                # (same size, other bytes, another time stamp) -- in both twins alike
+                if r.random() < 0.5:
+                    victim = r.choice(paths)
+                    kind = r.choice(["removed", "rewritten"])
+                    for root in (da, db):
+                        fp = os.path.join(root, victim)
+                        if not os.path.isfile(fp) or os.path.islink(fp):
+                            continue
+                        if kind == "removed":
+                            os.remove(fp)
+                        else:
+                            sz = os.path.getsize(fp)
+                            with open(fp, "wb") as fh:
+                                fh.write(world.pbytes(99 + k, sz))
+                            os.utime(fp, ns=(ew.T0NS + 77 * 10**9, ew.T0NS + 77 * 10**9))
+                    dmg.append(("destination-" + kind, victim))
         tag = {"history": i, "seed": seed, "step": k, "aux": name, "flags": fl, "edits": history, "damage": dmg}
         meta_before = [m for m in META if os.path.exists(os.path.join(db, m))]
         out = {}
